@@ -91,6 +91,7 @@ type pkgCtx struct {
 	done    map[*types.Func]bool   // translated successfully
 	fuelFn  map[*types.Func]bool   // takes a fuel parameter
 	orcFn   map[*types.Func]bool   // takes the strconv.AppendFloat oracle
+	divFn   map[*types.Func]bool   // takes the float64(a)/float64(b) oracle
 	skipped map[*types.Func]string
 	globals map[*types.Var]string // package variables set by init(): Gallina name
 }
@@ -131,7 +132,7 @@ func translateUnit(repo string, u unit) (g genOut, err error) {
 		return g, fmt.Errorf("type check failed")
 	}
 	p := &pkgCtx{fset: fset, info: info, pkg: pkg, funcs: map[*types.Func]*ast.FuncDecl{}, fname: map[*types.Func]string{},
-		done: map[*types.Func]bool{}, fuelFn: map[*types.Func]bool{}, orcFn: map[*types.Func]bool{}, skipped: map[*types.Func]string{}, globals: map[*types.Var]string{}}
+		done: map[*types.Func]bool{}, fuelFn: map[*types.Func]bool{}, orcFn: map[*types.Func]bool{}, divFn: map[*types.Func]bool{}, skipped: map[*types.Func]string{}, globals: map[*types.Var]string{}}
 	want := map[string]bool{}
 	for _, f := range u.files {
 		want[f] = true
@@ -495,6 +496,7 @@ type fnCtx struct {
 	ntmp     int
 	needFuel bool
 	needOrc  bool
+	needDiv  bool
 	pre      []func(string) string // pending wrappers (guards, binds) of the statement being translated
 	cond     []string              // enclosing short-circuit conditions (guards become implications)
 	locals   map[types.Object]bool // objects treated as local variables (params, locals, init's globals)
@@ -609,6 +611,10 @@ func (p *pkgCtx) translateFunc(obj *types.Func) (txt string, nloops int, err err
 		fuelParam = " (fo : float_oracle)"
 		p.orcFn[obj] = true
 	}
+	if f.needDiv {
+		fuelParam += " (fq : Z -> Z -> gofl)"
+		p.divFn[obj] = true
+	}
 	if f.needFuel {
 		fuelParam += " (fuel : nat)"
 		p.fuelFn[obj] = true
@@ -673,7 +679,7 @@ func (p *pkgCtx) translateInit(fd *ast.FuncDecl) (txt string, err error) {
 		b.WriteString(f.orcFill(l) + "\n")
 	}
 	body = f.orcFill(body)
-	if f.needFuel || f.needOrc {
+	if f.needFuel || f.needOrc || f.needDiv {
 		fail("init needs explicit fuel or an oracle")
 	}
 	fmt.Fprintf(&b, "Definition init_ : res %s :=\n%s\n%s.\n", f.resType, indent(strings.Join(inits, "\n"), 1), indent(body, 1))
@@ -745,10 +751,14 @@ func matchingParen(s string) bool {
 
 // loops are emitted before it is known whether the function needs the float oracle: placeholders are filled at the end
 func (f *fnCtx) orcFill(s string) string {
+	par, arg := "", ""
 	if f.needOrc {
-		return strings.ReplaceAll(strings.ReplaceAll(s, "(*ORC*)", "(fo : float_oracle) "), "(*ORCA*)", " fo")
+		par, arg = "(fo : float_oracle) ", " fo"
 	}
-	return strings.ReplaceAll(strings.ReplaceAll(s, "(*ORC*)", ""), "(*ORCA*)", "")
+	if f.needDiv {
+		par, arg = par+"(fq : Z -> Z -> gofl) ", arg+" fq"
+	}
+	return strings.ReplaceAll(strings.ReplaceAll(s, "(*ORC*)", par), "(*ORCA*)", arg)
 }
 
 func (f *fnCtx) wrapPre(code string) string {
@@ -1897,6 +1907,17 @@ func (f *fnCtx) expr(e ast.Expr) string {
 		case token.SHL, token.SHR:
 			return f.shift(e.Op, f.expr(e.X), e.Y, f.p.info.TypeOf(e))
 		default:
+			if e.Op == token.QUO {
+				if _, isf := isFloat(f.p.info.TypeOf(e)); isf {
+					// float64(a) / float64(b) with integer a, b: the quotient is an oracle of the two integers
+					if a, ok1 := f.intUnderFloatConv(e.X); ok1 {
+						if b, ok2 := f.intUnderFloatConv(e.Y); ok2 {
+							f.needDiv = true
+							return fmt.Sprintf("fq %s %s", paren(a), paren(b))
+						}
+					}
+				}
+			}
 			return f.arith(e.Op, f.expr(e.X), f.expr(e.Y), f.p.info.TypeOf(e))
 		}
 	case *ast.IndexExpr:
@@ -1984,11 +2005,34 @@ func (f *fnCtx) expr(e ast.Expr) string {
 	return ""
 }
 
+// float64(x) with x of a signed integer type: returns x as a Z expression
+func (f *fnCtx) intUnderFloatConv(e ast.Expr) (string, bool) {
+	call, ok := e.(*ast.CallExpr)
+	if !ok || len(call.Args) != 1 {
+		return "", false
+	}
+	tv, ok := f.p.info.Types[call.Fun]
+	if !ok || !tv.IsType() {
+		return "", false
+	}
+	if w32, isf := isFloat(tv.Type); !isf || w32 {
+		return "", false
+	}
+	if sg, _, ok := intInfo(f.p.info.TypeOf(call.Args[0])); !ok || !sg {
+		return "", false
+	}
+	return f.expr(call.Args[0]), true
+}
+
 func (f *fnCtx) callTranslated(fn *types.Func, call *ast.CallExpr) string {
 	var args []string
 	if f.p.orcFn[fn] {
 		f.needOrc = true
 		args = append(args, "fo")
+	}
+	if f.p.divFn[fn] {
+		f.needDiv = true
+		args = append(args, "fq")
 	}
 	if f.p.fuelFn[fn] {
 		f.needFuel = true
